@@ -387,7 +387,106 @@ def _bits(sim, name, partial=None):
 
 
 # =============================================================================== check
+INOUT_SRC = """from __future__ import annotations
+import cohdl
+from cohdl import std, Bit, BitVector, Unsigned, Signed, Port, Signal
+
+class L0(cohdl.Entity):
+    a0 = Port.input({fty})
+    io0 = Port.inout({fty})
+
+    def architecture(self):
+        @std.concurrent
+        def logic():
+            self.io0 <<= self.a0
+
+class Top(cohdl.Entity):
+    x1 = Port.input({fty})
+    pad1 = Port.inout({rty})
+
+    def architecture(self):
+{inst}
+"""
+
+
+def check_inout(case):
+    """INOUT formal with a (typed view / slice of a) differently typed actual: both directions of the association
+    must be type correct: `<actual type>(formal) => <formal type>(actual)`, no conversion when the VHDL types agree.
+    cv.vhdl does not elaborate inout associations, so this is judged on the parsed port map."""
+    from cv.harness.loader import Rejected, compile_source
+    from cv.vhdl.parser import parse
+
+    c = case["inout"]
+    out = Outcome()
+    out.identity = "inout:" + json.dumps(c, sort_keys=True)
+    fty, rty = R.ty_src([c["fk"], c["w"]]), R.ty_src([c["rk"], c["rw"]])
+    act = "self.pad1" + (f"[{c['sl'][0]}:{c['sl'][1]}]" if c["sl"] else "") + \
+        ("." + R.VIEW_ATTR[c["view"]] if c["view"] else "")
+    call = f"L0(a0=self.x1, io0={act})"
+    inst = f"        {call}" if c["where"] == "arch" else f"        @std.concurrent\n        def ctx():\n            {call}"
+    out.labels += ["inout", f"where:{c['where']}", "actual:" + "+".join(
+        (["slice" if c["rk"] == "bv" else "numslice"] if c["sl"] else []) + (["view"] if c["view"] else [])) or "actual:whole"]
+    try:
+        vhdl = compile_source(INOUT_SRC.format(fty=fty, rty=rty, inst=inst), "Top")
+    except Rejected as e:
+        out.status = "rejected"
+        out.labels.append("rejected:inout")
+        return out
+    out.nontrivial = bool(c["sl"] or c["view"])
+    units, _ = parse(vhdl)
+    ent = {u.name: u for u in units if u.kind == "entity"}
+    for name, port, kind, wd in (("l0", "io0", c["fk"], c["w"]), ("top", "pad1", c["rk"], c["rw"])):
+        p = next((q for q in ent[name].ports if q.raw == port), None) if name in ent else None
+        if p is None or p.mode != "inout" or p.subtype.mark != VHDL_TY[kind]:
+            out.add({"kind": "interface", "what": "inout_port"}, f"{name}.{port}: emitted {p and (p.mode, p.subtype.mark)}")
+    arch = next(u for u in units if u.kind == "architecture" and u.entity == "top")
+    vi = [s_ for s_ in arch.stmts if s_.kind == "instance"]
+    assoc = [a for a in vi[0].pmap if "io0" in repr(a.formal)] if len(vi) == 1 else []
+    if len(assoc) != 1:
+        out.add({"kind": "structure", "what": "formal_missing", "dir": "inout"}, "io0 is not associated exactly once")
+        return out
+    a = assoc[0]
+
+    def conv(n):
+        if n.kind == "apply" and n.prefix.kind == "name" and n.prefix.id in CONVERSIONS and len(n.args) == 1 \
+                and n.args[0].kind != "range":
+            return n.prefix.id, n.args[0]
+        return None, n
+    fconv, fname = conv(a.formal)
+    aconv, aexpr = conv(a.actual)
+    na = _norm_actual(aexpr)
+    want_sel = tuple(c["sl"]) if c["sl"] else None
+    if fname.kind != "name" or fname.id != "io0" or na is None or na[0] not in ("pad1", "buffer_pad1") or na[1] != want_sel:
+        out.add({"kind": "structure", "what": "wrong_actual", "dir": "inout"}, f"port map has {a!r}")
+        return out
+    tf, ta = VHDL_TY[c["fk"]], VHDL_TY[c["rk"]]       # a slice keeps the VHDL type of its root
+    out.counters["inout_assocs_checked"] = 1
+    # value flowing in: type of the (converted) actual must be the formal's; flowing out: the (converted) formal's
+    # type must be the actual's
+    if (aconv or ta) != tf:
+        out.add({"kind": "portmap_static", "rule": "S-type", "dir": "inout", "cause": "actual_side"},
+                f"io0 : inout {tf}, actual {ta}: association `{_txt(a)}` gives the formal a value of type {aconv or ta}")
+    if (fconv or tf) != ta:
+        out.add({"kind": "portmap_static", "rule": "S-type", "dir": "inout", "cause": "formal_side"},
+                f"io0 : inout {tf}, actual {ta}: association `{_txt(a)}` gives the actual a value of type {fconv or tf}")
+    return out
+
+
+def _txt(a):
+    def t(n):
+        if n.kind == "name":
+            return n.raw
+        if n.kind == "apply":
+            x = n.args[0]
+            arg = f"{t(x.left)} {x.dir} {t(x.right)}" if x.kind == "range" else t(x)
+            return f"{t(n.prefix)}({arg})"
+        return str(getattr(n, "value", n.kind))
+    return f"{t(a.formal)} => {t(a.actual)}"
+
+
 def check(case):
+    if "inout" in case:
+        return check_inout(case)
     from cv.harness.loader import Rejected, compile_source
     from cv.vhdl.analyze import analyse
     from cv.vhdl.parser import parse
@@ -558,5 +657,7 @@ def check(case):
 
 
 def view(case):
+    if "inout" in case:
+        return case
     spec = case["spec"]
     return {"hier": R.render_hier(spec).split("\n", 9)[-1], "stim": case["stim"][:3]}
